@@ -2555,13 +2555,17 @@ class Group(System):
             initialized, the driver for this model must be supplied in order to properly
             initialize the approximations.
         """
+        # this may be called while a total jacobian is being approximated (the sparsity
+        # computation of a dynamic coloring linearizes the model), so put back what we found.
+        save_tot_jac = self._tot_jac
+
         if driver is not None and self.pathname == '' and self._owns_approx_jac:
             self._tot_jac = _TotalJacInfo(driver._problem(), None, None, 'flat_dict', approx=True)
 
         try:
             super().run_linearize(sub_do_ln=sub_do_ln)
         finally:
-            self._tot_jac = None
+            self._tot_jac = save_tot_jac
 
     def _apply_nonlinear(self):
         """
